@@ -4,6 +4,6 @@ set -e
 cd "$(dirname "$0")"
 export CARGO_NET_OFFLINE=true
 mkdir -p .work evidence replays
-( cd lean && lake build RlModel $(ls Drivers/*.lean | sed 's#Drivers/C\([0-9]*\).lean#drv_c\1#' | grep drv_) )
+( cd lean && lake build RlModel $(ls RlModel/Thm/*.lean | sed 's#/#.#g; s#\.lean$##') $(ls Drivers/*.lean | sed 's#Drivers/C\([0-9]*\).lean#drv_c\1#' | grep drv_) 2>&1 | grep -v "^warning\|^  \|^$\|^Hint\|^Note" | tail -15 )
 ( cd harness && cargo build --offline --bins 2>&1 | tail -3 )
 echo "setup done"
